@@ -143,6 +143,10 @@ impl Tokenizer {
         self.err.as_ref()
     }
 
+    pub fn raw_tag(&self) -> &str {
+        self.raw_tag.as_str()
+    }
+
     pub fn allow_cdata(&mut self, allow_cdata: bool) {
         self.allow_cdata = allow_cdata;
     }
